@@ -240,6 +240,91 @@ func (r *Run) phaseOrder() {
 	}
 }
 
+// mainLast (C15): main is put on the list of functions to run once, outside every loop, after every
+// statement that puts init functions on it — so that it runs after ALL init functions of ALL files.
+func (r *Run) mainLast() {
+	p := r.L.ByName["interp"]
+	for _, key := range []string{"Interpreter.importSrc", "Interpreter.CompileAST"} {
+		fd := r.L.FindFunc(p, key)
+		if fd == nil {
+			r.engineError("%s does not exist in the current tree", key)
+			continue
+		}
+		type app struct {
+			idx, depth int
+			main      bool
+			pos       string
+		}
+		var apps []app
+		idx := 0
+		var walk func(n ast.Node, depth int, inMainIf bool)
+		walk = func(n ast.Node, depth int, inMainIf bool) {
+			ast.Inspect(n, func(m ast.Node) bool {
+				if m == nil || m == n {
+					return true
+				}
+				idx++
+				switch m := m.(type) {
+				case *ast.FuncLit:
+					return false
+				case *ast.ForStmt:
+					walk(m.Body, depth+1, inMainIf)
+					return false
+				case *ast.RangeStmt:
+					walk(m.Body, depth+1, inMainIf)
+					return false
+				case *ast.IfStmt:
+					mentions := false
+					ast.Inspect(m, func(k ast.Node) bool {
+						if k == m.Body || k == m.Else {
+							return false
+						}
+						if id, ok := k.(*ast.Ident); ok && id.Name == "mainID" {
+							mentions = true
+						}
+						return true
+					})
+					if m.Init != nil {
+						walk(m.Init, depth, inMainIf)
+					}
+					walk(m.Body, depth, inMainIf || mentions)
+					if m.Else != nil {
+						walk(m.Else, depth, inMainIf)
+					}
+					return false
+				case *ast.AssignStmt:
+					if len(m.Lhs) == 1 && len(m.Rhs) == 1 && types.ExprString(m.Lhs[0]) == "initNodes" {
+						if c, ok := m.Rhs[0].(*ast.CallExpr); ok && types.ExprString(c.Fun) == "append" {
+							apps = append(apps, app{idx, depth, inMainIf, r.L.Fset.Position(m.Pos()).String()})
+						}
+					}
+				}
+				return true
+			})
+		}
+		walk(fd.Body, 0, false)
+		nMain, ok, why := 0, true, ""
+		for _, a := range apps {
+			if a.main {
+				nMain++
+				if a.depth > 0 {
+					ok, why = false, "main is appended inside a loop at "+a.pos
+				}
+				for _, b := range apps {
+					if !b.main && b.idx > a.idx {
+						ok, why = false, "init functions are appended at "+b.pos+" after main was"
+					}
+				}
+			}
+		}
+		if nMain != 1 && ok {
+			ok, why = false, fmt.Sprintf("%d statements append main to the run list", nMain)
+		}
+		r.frameObl("interp."+key+"/order:main-after-all-inits", "main is appended to the list of functions to run exactly once, outside every loop, after every append of init functions", ok, why)
+		r.FuncsUC = append(r.FuncsUC, "interp."+key+" (main last)")
+	}
+}
+
 // depsThroughFunctions: the Go spec's reference relation is transitive through the bodies of the
 // functions and methods an initialiser mentions. The obligation holds when the dependency walk
 // treats function symbols (it must visit the body of a referenced function).
